@@ -59,7 +59,7 @@ Proof.
     destruct (_ =? 1); [apply okE_packB|]. destruct (_ =? 2); [apply okE_packH|apply okE_packI].
   - intros _. destruct (op_val p) as [v|s|[|]]; try e_leaf. apply okE_rapp; apply okE_packH.
   - destruct (op_val p) as [v|s|b]; try discriminate. intros _.
-    apply okE_bind; [apply okE_ascii_encode|]. intros val _. apply okE_rapp; [apply okE_packH|]. apply okE_rapp; [apply okE_packH|exact I].
+    apply okE_bind; [destruct (mem (op_tag p) tlv_cstring_tags_tlv); [apply okE_ascii_encode|apply okE_latin1_encode]|]. intros val _. apply okE_rapp; [apply okE_packH|]. apply okE_rapp; [apply okE_packH|exact I].
 Qed.
 
 Lemma okE_time_to_smpp t : okE (time_to_smpp t).
